@@ -3,7 +3,7 @@
 From Coq Require Import NArith List String Bool Ascii.
 From Falco Require Import Base.TablesBase Model.ScopeMask Model.LintTables Model.LintOps.
 From Falco Require Import Gen.LintConsts Gen.LintVars Gen.LintFuncs Gen.RefVars Gen.RefFuncs Gen.InterpFuncs.
-From Falco Require Import Gen.ObsVars Gen.ObsFuncs Gen.ObsStmts Gen.ObsOps Gen.ObsWide Gen.KnownGaps.
+From Falco Require Import Gen.ObsVars Gen.ObsFuncs Gen.ObsStmts Gen.ObsOps Gen.ObsWide Gen.ObsCoerce Gen.ObsInferred Gen.KnownGaps.
 Import ListNotations.
 Local Open Scope N_scope.
 Local Open Scope string_scope.
@@ -67,20 +67,33 @@ Definition stmt_kinds : list string :=
 
 (* ---- operators *)
 Definition op_types : list string := ["INTEGER"; "FLOAT"; "STRING"; "BOOL"; "RTIME"; "TIME"; "IP"; "BACKEND"; "ACL"; "header"].
-Definition op_forms : list string := ["lit"; "local"; "predef"].
+Definition op_forms : list string := ["lit"; "local"; "predef"; "plit"; "plocal"; "ppredef"; "ifexp"; "call"].
+Definition base_forms : list string := ["lit"; "local"; "predef"].
 Definition all_ops : list string := assign_ops ++ compare_ops.
 Definition op_rows : list (string * string) := flat_map (fun op => map (fun l => (op, l)) op_types) all_ops.
-(* position 3 * right type index + form index *)
+(* position 8 * value type index + form index *)
 Definition op_cells : list (N * string * string) :=
-  flat_map (fun ri => map (fun fi => ((3 * fst ri + fst fi)%N, snd ri, snd fi))
-                          (combine [0; 1; 2] op_forms))
+  flat_map (fun ri => map (fun fi => ((8 * fst ri + fst fi)%N, snd ri, snd fi))
+                          (combine [0; 1; 2; 3; 4; 5; 6; 7] op_forms))
            (combine [0; 1; 2; 3; 4; 5; 6; 7; 8; 9] op_types).
-Definition form_exists (rty form : string) : bool :=
+Definition base_form_exists (rty form : string) : bool :=
   if String.eqb form "lit" then mem_str rty ["INTEGER"; "FLOAT"; "STRING"; "BOOL"; "RTIME"; "BACKEND"; "ACL"]
   else if String.eqb form "predef" then negb (String.eqb rty "ACL")
   else true.
+Definition base_of_form (form : string) : string :=
+  if String.eqb form "plit" then "lit" else if String.eqb form "plocal" then "local"
+  else if String.eqb form "ppredef" then "predef" else form.
+(* a parameter and a function result have a declared type (no header); if() takes two locals / headers *)
+Definition form_exists (rty form : string) : bool :=
+  if mem_str form base_forms then base_form_exists rty form
+  else if mem_str form ["plit"; "plocal"; "ppredef"] then negb (String.eqb rty "header") && base_form_exists rty (base_of_form form)
+  else if String.eqb form "call" then negb (String.eqb rty "header")
+  else String.eqb form "ifexp".
 Definition op_cells_existing : list (N * string * string) :=
   filter (fun c => match c with (_, r, f) => form_exists r f end) op_cells.
+(* the cells whose value is written directly (literal, local variable, predefined variable) *)
+Definition op_cells_base : list (N * string * string) :=
+  filter (fun c => match c with (_, _, f) => mem_str f base_forms end) op_cells_existing.
 Definition obs_op_key (r : string * string * N * N) : string * string := match r with (o, l, _, _) => (o, l) end.
 
 (* ---- known gaps: (kind, name, at, bits) *)
@@ -139,3 +152,57 @@ Definition interp_func_agrees (f : bfunc) (g : ifunc) : bool :=
   N.eqb (compact_of lint_scope_bit (f_scopes f)) (compact_of interp_scope_bit (if_scope g))
   && Bool.eqb (if_stmt g) (N.eqb (f_ret f) T_Never)
   && list_eqb N.eqb (id_positions f) (if_ident g).
+
+(* ---- a value where a type is expected: contexts x expected types; positions are those of the operator cells *)
+Definition coerce_ctxs : list string := ["arg"; "ret"; "par"].
+Definition value_types : list string := ["INTEGER"; "FLOAT"; "STRING"; "BOOL"; "RTIME"; "TIME"; "IP"; "BACKEND"; "ACL"].
+Definition coerce_rows : list (string * string) := flat_map (fun c => map (fun e => (c, e)) value_types) coerce_ctxs.
+
+(* ---- scopes obtained by call-graph inference: the use in the innermost of 1..3 un-annotated helpers called from
+   every pair of lifecycle subroutines.  Quick tier: one representative per accessor class (scope mask, readable,
+   writable, unsettable) and per function scope mask - the first in table order; thorough tier: every variable and
+   function.  Triples of lifecycle subroutines (thorough tier): the representatives, depth 2. *)
+Fixpoint first_per_class {A K} (key : A -> K) (keqb : K -> K -> bool) (l : list A) (seen : list K) : list A :=
+  match l with
+  | [] => []
+  | x :: r => if existsb (keqb (key x)) seen then first_per_class key keqb r seen
+              else x :: first_per_class key keqb r (key x :: seen)
+  end.
+Definition var_class (kv : string * accessor) : N * bool * bool * bool :=
+  (compact_of lint_scope_bit (a_scopes (snd kv)), negb (N.eqb (a_get (snd kv)) T_Never), negb (N.eqb (a_set (snd kv)) T_Never), a_unset (snd kv)).
+Definition var_class_eqb (a b : N * bool * bool * bool) : bool :=
+  match a, b with (s, g, w, u), (s', g', w', u') => N.eqb s s' && Bool.eqb g g' && Bool.eqb w w' && Bool.eqb u u' end.
+Definition var_reps : list (string * accessor) := first_per_class var_class var_class_eqb lint_var_flat [].
+Definition func_reps : list (string * bfunc) := first_per_class (fun kv => compact_of lint_scope_bit (f_scopes (snd kv))) N.eqb lint_func_flat [].
+
+Definition inferred_uses (http_names : list string) (full : bool) : list (string * string * string) :=
+  flat_map (fun kv => flat_map (fun n => map (fun op => ("IV", n, op)) var_ops) (instantiate http_names (fst kv)))
+           (if full then lint_var_flat else var_reps)
+  ++ map (fun kv => ("IF", fst kv, "0")) (if full then lint_func_flat else func_reps)
+  ++ map (fun k => ("IS", k, "")) stmt_kinds.
+Definition depths : list N := [1; 2; 3]%N.
+Definition inferred_rows (http_names : list string) (full : bool) : list (string * string * string * N) :=
+  flat_map (fun u => map (fun d => (u, d)) depths) (inferred_uses http_names full).
+Definition rep_names (http_names : list string) : list string :=
+  flat_map (fun kv => instantiate http_names (fst kv)) var_reps ++ map fst func_reps.
+Definition inferred3_rows (http_names : list string) (full : bool) : list (string * string * string * N) :=
+  if full then
+    map (fun u => (u, 2%N))
+        (filter (fun u => match u with (k, n, _) => String.eqb k "IS" || mem_str n (rep_names http_names) end)
+                (inferred_uses http_names true))
+  else [].
+Definition obs_inferred_key (r : string * string * string * N * N * N) : string * string * string * N :=
+  match r with (k, n, a, d, _, _) => (k, n, a, d) end.
+Definition triple_masks : list N := filter (fun m => Nat.eqb (popcount9 m) 3) masks_1_511.
+
+(* the linter's verdict on a use whose subroutine runs in the scopes of the compact mask m *)
+Definition lint_use_model (c : lint_ctx) (kind name at_ : string) (m : N) : bool :=
+  if String.eqb kind "IV" then lint_var_op c name at_ (lint_mode m)
+  else if String.eqb kind "IF" then is_some (lint_get_function name (lint_mode m))
+  else lint_stmt name (lint_mode m).
+Definition gap_kind (kind : string) : string :=
+  if String.eqb kind "IV" then "var-interp" else if String.eqb kind "IF" then "func-interp" else "stmt-interp".
+(* a recorded gap of the use under a single scope or a two-scope annotation contained in the mask
+   (a use that fails from one entry subroutine, or for one pair of entries, fails for every superset) *)
+Definition use_gap_covers (kind name at_ : string) (m : N) : bool :=
+  existsb (fun p => N.eqb (N.land (mask_at p) m) (mask_at p) && gap_covers (gap_kind kind) name at_ p) positions45.
